@@ -652,6 +652,28 @@ fn core_for(its: &[IterableSet], lexeme: bool) -> bool {
         v && it
     })
 }
+/// twin of `coreGraphValue` / `graphOKb`: a graph literal with a first node that has an edge to a name that is no boolean
+/// word and whose own name is no keyword (names are `simple_variable`s, edges are not parallel, costs are numbers: the
+/// parser guarantees these)
+fn core_graph_value(e: &PreExp) -> bool {
+    match e {
+        PreExp::Primitive(p) => match p.value() {
+            Primitive::Graph(g) => {
+                let word_ok = |s: &str| s.chars().all(|c| is_word_char(c) || c == '$');
+                let all_ok = g.nodes().iter().all(|n| word_ok(n.name()) && n.clone().to_edges().iter().all(|e| word_ok(&e.to) && e.weight.map(|w| w.is_finite()).unwrap_or(true)));
+                match g.nodes().first() {
+                    Some(n) => {
+                        let edges = n.clone().to_edges();
+                        all_ok && !KEYWORDS.contains(&n.name().as_str()) && edges.first().map(|e| e.to != "true" && e.to != "false").unwrap_or(false)
+                    }
+                    None => false,
+                }
+            }
+            _ => false,
+        },
+        _ => false,
+    }
+}
 fn core_name(v: &Variable, lexeme: bool) -> bool {
     match v {
         Variable::Variable(n) => name_var(n),
@@ -690,7 +712,7 @@ pub fn in_fragment(m: &PreModel, lexeme: bool) -> bool {
                 && core_exp(&c.lhs, lexeme) && (c.is_logic_assertion || core_exp(&c.rhs, lexeme)) && core_for(&c.iteration, lexeme)
                 && not_for(match &c.name_exp { Some(n) => name_word(n.value()), None => first_word(&c.lhs) })
         })
-        && m.constants().iter().all(|k| (plain_var(k.name.value()) || k.name.value() == "_") && core_exp(&k.value, lexeme))
+        && m.constants().iter().all(|k| (plain_var(k.name.value()) || k.name.value() == "_") && (core_exp(&k.value, lexeme) || core_graph_value(&k.value)))
         && m.domains().iter().all(|d| {
             !d.variables().is_empty() && d.variables().iter().all(|v| core_name(v.value(), lexeme))
                 && match d.get_type() {
